@@ -17,7 +17,7 @@ MemfdOps == {"set_mem_table", "add_mem_region", "set_inflight_fd", "set_log_base
              "set_log_fd", "set_backend_request_fd"}
 
 JudgedMutations == {"code+1", "code=0", "code=999", "flag-reply", "ver0", "ver2", "resv", "size-1",
-                    "size_field>max", "body_short", "fds+1", "fds+2", "fds-1", "fds+1_seg", "fds_late", "nack", "body_invalid",
+                    "size_field>max", "body_short", "fds+1", "fds+2", "fds-1", "fds+1_seg", "fds_late", "nack", "nack_hi", "body_invalid",
                     "config_offset", "random", "silent"}
 
 Prefix(s, n) == SubSeq(s, 1, n)
@@ -74,7 +74,7 @@ ReplyViol(e, fx) ==
                     ELSE IF e.hang THEN {"C08/frontend/blocked-on-truncated-reply/" \o e.op \o "/at=" \o where}
                     ELSE {})
          ELSE IF fx.await = "none" \/ e.peer \notin JudgedMutations THEN {}
-              ELSE IF e.peer = "nack" THEN (IF e.res = "ok" THEN {"C03/frontend/nack-reported-as-success/" \o e.op \o "/" \o e.cls} ELSE {})
+              ELSE IF e.peer \in {"nack", "nack_hi"} THEN (IF e.res = "ok" THEN {"C03/frontend/nack-reported-as-success/" \o e.op \o "/" \o e.cls \o (IF e.peer = "nack_hi" THEN "/status-with-zero-low-half" ELSE "")} ELSE {})
               ELSE IF e.res = "ok" THEN {"C06/frontend/accepted-bad-reply/" \o tag}
               ELSE IF e.hang /\ e.peer # "silent" THEN {"C06/frontend/hang-on-bad-reply/" \o tag}
               ELSE {}
